@@ -4,9 +4,9 @@
     is KNOWN when it has an entry with a non-empty column list (first entry wins).  Relative to Ast/Spec.v:
     (a) a star over a known base table contributes exactly the catalog columns, each depending on that column of the table
         ([item_cols_md]);
-    (b) an unqualified reference over several relations has as candidates the base tables that are unknown or whose
-        catalog lists the column; if no candidate is unknown the reference is attributed to exactly the tables listing it,
-        a single candidate is the answer, otherwise the reference stays unresolved with these candidates ([resolve_md]);
+    (b) an unqualified reference over several base tables is attributed to exactly those in-scope tables whose catalog
+        entry lists the column (unknown tables are then dropped); only if no table lists it does it stay unresolved, with
+        all tables of the scope as printed candidates, as without metadata ([resolve_md]);
     (c) an INSERT without column list into a known target names the output positions by the catalog ([spec_flows_md]);
     (d) with an empty catalog everything is as in Ast/Spec.v ([spec_md_nil]); the same holds when the catalog knows none
         of the tables of the statement (Tree/LemmaBMeta.v, [spec_md_unknown]).
@@ -20,19 +20,17 @@ Definition known (md : catalog) (t : string) : option (list string) :=
 
 Definition is_known (md : catalog) (t : string) : bool := match known md t with Some _ => true | None => false end.
 
-(** the candidates one relation offers for the unqualified column [c] *)
-Definition rel_cand (md : catalog) (c : string) (b : binding) : list string :=
+(** the tables of the scope whose catalog entry lists the unqualified column [c] *)
+Definition rel_lister (md : catalog) (c : string) (b : binding) : list string :=
   match b_rel b with
   | RelBase t => match known md t with
                  | Some cols => if mem_string c cols then [t] else []
-                 | None => [t]
+                 | None => []
                  end
   | RelCols _ => []
   end.
 
 Definition base_b (b : binding) : bool := match b_rel b with RelBase _ => true | RelCols _ => false end.
-Definition unknown_b (md : catalog) (b : binding) : bool :=
-  match b_rel b with RelBase t => negb (is_known md t) | RelCols _ => false end.
 Definition is_nil {A} (l : list A) : bool := match l with [] => true | _ => false end.
 
 Definition resolve_md (md : catalog) (scope : list binding) (r : option string * string) : list src :=
@@ -42,11 +40,13 @@ Definition resolve_md (md : catalog) (scope : list binding) (r : option string *
       match scope with
       | [b] => rel_col (b_rel b) (snd r)
       | _ =>
-          let cands := dedup_s (flat_map (rel_cand md (snd r)) scope) [] in
-          if forallb base_b scope && negb (existsb (unknown_b md) scope) && negb (is_nil cands)
-          then (* every table is known: attributed to exactly those that list the column *)
-               map (fun t => SCol t (snd r)) cands
-          else match cands with
+          let listers := dedup_s (flat_map (rel_lister md (snd r)) scope) [] in
+          if forallb base_b scope && negb (is_nil listers)
+          then (* attributed to exactly the tables that list the column *)
+               map (fun t => SCol t (snd r)) listers
+          else (* nobody lists it: as without metadata *)
+               let cands := dedup_s (flat_map (fun b => match b_rel b with RelBase t => [t] | RelCols _ => [] end) scope) [] in
+               match cands with
                | [t] => if forallb base_b scope then [SCol t (snd r)] else [SUnres (snd r) cands]
                | _ => [SUnres (snd r) cands]
                end
@@ -132,16 +132,9 @@ Lemma resolve_md_nil scope r : resolve_md [] scope r = resolve scope r.
 Proof.
   unfold resolve_md, resolve. destruct (fst r) as [q|]; [reflexivity|].
   destruct scope as [|b [|b' rest]]; [reflexivity|reflexivity|].
-  assert (Ec : forall l, flat_map (rel_cand [] (snd r)) l =
-                         flat_map (fun b => match b_rel b with RelBase t => [t] | RelCols _ => [] end) l).
-  { intros l. apply flat_map_ext. intros x. unfold rel_cand. destruct (b_rel x); reflexivity. }
-  rewrite Ec.
-  assert (Eb : forall l, forallb base_b l = forallb (fun b => match b_rel b with RelBase _ => true | RelCols _ => false end) l)
-    by reflexivity.
-  assert (Eg : forallb base_b (b :: b' :: rest) && negb (existsb (unknown_b []) (b :: b' :: rest)) = false).
-  { cbn [forallb existsb]. unfold base_b at 1, unknown_b at 1. destruct (b_rel b); [|reflexivity].
-    cbn [is_known known assoc_s negb orb]. apply andb_false_r. }
-  rewrite Eg. cbn [andb]. rewrite Eb. reflexivity.
+  assert (El : flat_map (rel_lister [] (snd r)) (b :: b' :: rest) = []).
+  { induction (b :: b' :: rest) as [|x l IH]; [reflexivity|]. cbn [flat_map]. rewrite IH. unfold rel_lister. destruct (b_rel x); reflexivity. }
+  rewrite El. cbn [dedup_s is_nil negb]. rewrite andb_false_r. reflexivity.
 Qed.
 
 Lemma item_cols_md_nil scope i : item_cols_md [] scope i = item_cols scope i.
